@@ -18,6 +18,11 @@ private notion of content.
                             Filer.DeleteChunks.  (Finding uploadReaderToChunks/read-error-treated-as-eof, repaired
                             in /repo by c68165d2: before it EVERY failing body was answered 201 and those chunks
                             were committed as the file.)
+  upload_failure_not_committed  FULL: every attempt to store one of the request's chunks is refused (dataToChunk gives
+                            up after three) ⇒ 500, the entry at the path stays what it was, every other chunk of the
+                            request — also those that complete after the failure — goes to Filer.DeleteChunks;
+                            upload_failure_judge_ok: the model passes the judge clause `uploadFailJudge`;
+                            upload_has_chunk: which (body, k) have such a chunk
   failed_body_hidden_by_inline  the excluded class characterised exactly (+ witness): the first read was taken as
                             the inline content, the loop never reads on and never meets the error — the same two
                             open …-keeps-first-chunk-only findings as `inline_drops_rest`
@@ -536,6 +541,90 @@ theorem append_overlays_witness :
     decide
   refine ⟨by decide, h1, h2, ?_⟩
   rw [h1, h2]
+  decide
+
+/-! ### MAIN 4: a chunk upload that fails for good is reported as failed and nothing is committed
+     (the sticky `uploadErr` of uploadReaderToChunks; regression class uploadReaderToChunks/chunk-upload-failure-committed) -/
+
+/-- FULL: whatever is stored at the path, PUT or multipart POST, append or not, any body / chunk size / inline limit:
+    when every attempt to store the chunk read `k`-th is refused — and the request does upload such a chunk — all
+    three attempts of dataToChunk are used up, the request is answered 500, the entry at the path is what it was, and
+    every OTHER chunk the request uploaded (the ones before and the ones that completed after the failure) is handed
+    to Filer.DeleteChunks -/
+theorem upload_failure_not_committed (existing : Option Entry) (m : Method) (hm : m ≠ .postRaw) (isAppend : Bool)
+    (cs limit : Nat) (etc : Bool) (gen : Nat) (body : List Nat) (k : Nat)
+    (hk : k < (uploadReaderToChunks cs limit isAppend etc gen body false).chunks.length) :
+    handleUploadFail existing m isAppend cs limit etc gen body k =
+      (500, existing, (uploadReaderToChunks cs limit isAppend etc gen body false).chunks.eraseIdx k) ∧
+    refusedAttempts m isAppend cs limit etc gen body k = 3 := by
+  cases m with
+  | postRaw => exact absurd rfl hm
+  | put => exact ⟨by simp [handleUploadFail, hk], by simp [refusedAttempts, hk, uploadAttempts]⟩
+  | postMultipart => exact ⟨by simp [handleUploadFail, hk], by simp [refusedAttempts, hk, uploadAttempts]⟩
+
+/-- the MODEL satisfies the judge clause for refused chunk uploads (`uploadFailJudge`, stated from the property
+    text) — for every request description `q` the judge could be asked about, every stored entry, method, body,
+    chunk size, inline limit and every index `k` of a chunk the request uploads -/
+theorem upload_failure_judge_ok (q : Req) (existing : Option Entry) (m : Method) (isAppend : Bool)
+    (cs limit : Nat) (etc : Bool) (gen : Nat) (body : List Nat) (k : Nat)
+    (hk : m = .postRaw ∨ k < (uploadReaderToChunks cs limit isAppend etc gen body false).chunks.length) :
+    uploadFailJudge q existing (handleUploadFail existing m isAppend cs limit etc gen body k).1
+      (handleUploadFail existing m isAppend cs limit etc gen body k).2.1 = none := by
+  have h : (handleUploadFail existing m isAppend cs limit etc gen body k).1 = 500 ∧
+      (handleUploadFail existing m isAppend cs limit etc gen body k).2.1 = existing := by
+    cases m with
+    | postRaw => exact ⟨rfl, rfl⟩
+    | put =>
+      rcases hk with hk | hk
+      · cases hk
+      · simp [handleUploadFail, hk]
+    | postMultipart =>
+      rcases hk with hk | hk
+      · cases hk
+      · simp [handleUploadFail, hk]
+  rw [h.1, h.2]
+  simp [uploadFailJudge, is2xx]
+
+/-- which requests upload a chunk read `k`-th: every error-free body that reaches beyond `k` whole chunks, unless its
+    first read is taken as the inline content (`hni`: an append, or not below /etc with the inline limit at most the
+    first read) — so the two theorems above speak about every failing chunk index of every chunked body -/
+theorem upload_has_chunk (cs limit gen : Nat) (hcs : 0 < cs) (isAppend etc : Bool) (body : List Nat) (k : Nat)
+    (hni : isAppend = true ∨ (etc = false ∧ limit ≤ min cs body.length)) (hk : k * cs < body.length) :
+    k < (uploadReaderToChunks cs limit isAppend etc gen body false).chunks.length := by
+  have := loop_count cs limit (!isAppend) etc gen hcs (body.length + 1) body 0 [] k (by omega)
+    (by
+      rcases hni with h | h
+      · exact Or.inr (Or.inl (by simp [h]))
+      · exact Or.inr (Or.inr h)) hk
+  simpa [uploadReaderToChunks] using this
+
+/-- a three-chunk body over an existing file, the FIRST chunk refused: the premises of the theorems hold … -/
+example : Method.put ≠ .postRaw ∧ 0 < 4 ∧ (false = true ∨ (false = false ∧ 0 ≤ min 4 ([1, 2, 3, 4, 5, 6, 7, 8, 9] : List Nat).length)) ∧
+    0 * 4 < ([1, 2, 3, 4, 5, 6, 7, 8, 9] : List Nat).length ∧
+    0 < (uploadReaderToChunks 4 0 false false 2 [1, 2, 3, 4, 5, 6, 7, 8, 9] false).chunks.length := by decide
+
+/-- … and the model answers 500, keeps the old file, uses three assigns and hands the two chunks that completed
+    after the failure to deletion; an append with its middle chunk refused likewise -/
+theorem upload_failure_witness :
+    handleUploadFail (some ⟨3, [], [⟨0, 1, [7, 8, 9]⟩]⟩) .put false 4 0 false 2 [1, 2, 3, 4, 5, 6, 7, 8, 9] 0
+      = (500, some ⟨3, [], [⟨0, 1, [7, 8, 9]⟩]⟩, [⟨4, 2, [5, 6, 7, 8]⟩, ⟨8, 2, [9]⟩]) ∧
+    refusedAttempts .put false 4 0 false 2 [1, 2, 3, 4, 5, 6, 7, 8, 9] 0 = 3 ∧
+    handleUploadFail (some ⟨3, [], [⟨0, 1, [7, 8, 9]⟩]⟩) .postMultipart true 4 0 false 2 [1, 2, 3, 4, 5, 6, 7, 8, 9] 1
+      = (500, some ⟨3, [], [⟨0, 1, [7, 8, 9]⟩]⟩, [⟨0, 2, [1, 2, 3, 4]⟩, ⟨8, 2, [9]⟩]) ∧
+    -- a body without a chunk read 5th: nothing is refused, the request is the fault-free one
+    handleUploadFail none .put false 4 0 false 1 [1, 2, 3, 4, 5] 5 = handle none .put false 4 0 false 1 [1, 2, 3, 4, 5] false ∧
+    refusedAttempts .put false 4 0 false 1 [1, 2, 3, 4, 5] 5 = 0 := by
+  decide
+
+/-- the judge clause is not vacuous: what the seeded regression produces (a later chunk's success clears the error:
+    201, FileSize 9, the first chunk missing from the entry) is classified, and so is an error answer that changed the file -/
+theorem upload_failure_judge_rejects :
+    uploadFailJudge ⟨false, false, 4, 0, false, [1, 2, 3, 4, 5, 6, 7, 8, 9], none⟩ (some ⟨3, [], [⟨0, 1, [7, 8, 9]⟩]⟩) 201
+      (some ⟨9, [], [⟨4, 2, [5, 6, 7, 8]⟩, ⟨8, 2, [9]⟩]⟩) = some "uploadReaderToChunks/chunk-upload-failure-committed" ∧
+    uploadFailJudge ⟨false, false, 4, 0, false, [1, 2, 3, 4, 5], none⟩ (some ⟨3, [], [⟨0, 1, [7, 8, 9]⟩]⟩) 500
+      (some ⟨1, [], [⟨0, 2, [5]⟩]⟩) = some "write/failed-request-changed-file" ∧
+    uploadFailJudge ⟨false, false, 4, 0, false, [1, 2, 3, 4, 5], none⟩ none 201
+      (some ⟨5, [], [⟨0, 1, [1, 2, 3, 4]⟩, ⟨4, 1, [5]⟩]⟩) = none := by
   decide
 
 /-! ### bridges: the model's branch conditions are the ones in the source (regenerated from /repo on every check) -/
